@@ -150,3 +150,24 @@ def dflt_spec(m):
     s["paths"]["/t"] = {"post": {"operationId": "putT", "requestBody": {"required": True, "content": {"application/json": {"schema": ref}}},
                                  "responses": {"200": {"description": "ok", "content": {"application/json": {"schema": ref}}}}}}
     return s
+def enum_spec(values, shape, nullpos=0):
+    """C15: one value list declared as schema `E` in one of three shapes, referenced by `Holder`, which is
+    both a request and a response body (so the enum gets Serialize and Deserialize).
+    shape: plain | nullable (type [string,null], JSON null inserted at index nullpos) | open (anyOf known + free string)."""
+    ref = lambda n: {"$ref": "#/components/schemas/" + n}
+    if shape == "plain":
+        e = {"type": "string", "enum": list(values)}
+    elif shape == "nullable":
+        vs = list(values)
+        vs.insert(min(nullpos, len(vs)), None)
+        e = {"type": ["string", "null"], "enum": vs}
+    elif shape == "open":
+        e = {"anyOf": [{"type": "string", "enum": list(values)}, {"type": "string"}]}
+    else:
+        raise ValueError(shape)
+    holder = {"type": "object", "required": ["e"], "properties": {"e": ref("E"), "l": {"type": "array", "items": ref("E")}}}
+    body = {"content": {"application/json": {"schema": ref("Holder")}}}
+    return {"openapi": "3.1.0", "info": {"title": "t", "version": "1"},
+            "paths": {"/op": {"post": {"operationId": "op", "requestBody": dict(body, required=True),
+                                       "responses": {"200": dict(body, description="ok")}}}},
+            "components": {"schemas": {"E": e, "Holder": holder}}}
